@@ -9,7 +9,7 @@ inductive Sync
   | mutexR (m : String)     -- inside RLock … RUnlock of m
   | mutexW (m : String)     -- inside Lock … Unlock of m
   | atomic                  -- a method of a sync/atomic value
-  | once                    -- inside, or after, <same object>.once.Do
+  | once (o : String)       -- inside, or after, o.Do — o names WHICH sync.Once (pkg.Struct.field / pkg.var)
 deriving DecidableEq, Repr
 
 structure Access where
@@ -30,12 +30,17 @@ def wellLocked (a : Access) : Bool :=
   | .mutexR _ => !a.write
   | _ => true
 
+/-- both inside / after the Do of the SAME sync.Once (two different Onces order nothing) -/
+def sameOnce : Sync → Sync → Bool
+  | .once o, .once o' => o == o'
+  | _, _ => false
+
 /-- two accesses to one location do not race: both reads, or both atomic, or both ordered by the same
     sync.Once, or both inside critical sections of the same mutex (writers in W mode) -/
 def ok (a b : Access) : Bool :=
   (!a.write && !b.write) ||
   (a.sync == .atomic && b.sync == .atomic) ||
-  (a.sync == .once && b.sync == .once) ||
+  sameOnce a.sync b.sync ||
   (match mutexOf a.sync, mutexOf b.sync with
    | some m, some n => m == n && wellLocked a && wellLocked b
    | _, _ => false)
